@@ -104,6 +104,8 @@ pub open spec fn ref_pre_kind(op: OpcodeKind, s: RefState) -> bool {
             && accepts(Kind::Instance, at(st, 1)),
         OpcodeKind::Obj => tm >= 0 && tm + 1 < st.len() && !is_data_kind(st[tm + 1]),
         OpcodeKind::Dup => st.len() >= 1 && st.last() != Kind::Mark,
+        // the operand of READONLY_BUFFER is a buffer object, never a MARK
+        OpcodeKind::ReadOnlyBuffer => st.len() >= 1 && st.last() != Kind::Mark,
         _ => true,
     }
 }
